@@ -211,3 +211,89 @@ def int_safe(sp, base: int = 10) -> Tuple[bool, str]:
                 continue  # \d = Unicode decimal digits: int() accepts all of them
             return False, f"pattern admits category {atom[1]}"
     return True, ""
+
+
+# ---- alternatives and character classes (language-level reading of a pattern) -----------------------
+def alternatives(sp) -> List[List[Any]]:
+    """The pattern as a list of alternatives, each a list of items ('lit', ch) / ('group', index, sub) / ('other', op, av);
+    non-capturing groups and branches are flattened (sre factors a common prefix out of a branch - it is multiplied back in)."""
+    def seqs(items) -> List[List[Any]]:
+        outs: List[List[Any]] = [[]]
+        for op, av in items:
+            if op is sre_c.LITERAL:
+                outs = [o + [("lit", chr(av))] for o in outs]
+            elif op is sre_c.BRANCH:
+                alts: List[List[Any]] = []
+                for a in av[1]:
+                    alts.extend(seqs(a))
+                outs = [o + a for o in outs for a in alts]
+            elif op is sre_c.SUBPATTERN:
+                group, _add, _del, sub = av
+                if group is None:
+                    subs = seqs(sub)
+                    outs = [o + s for o in outs for s in subs]
+                else:
+                    outs = [o + [("group", group, sub)] for o in outs]
+            else:
+                outs = [o + [("other", op, av)] for o in outs]
+            if len(outs) > 64:
+                raise AnalysisError("regex has too many alternatives to enumerate")
+        return outs
+
+    return seqs(sp)
+
+
+def class_accepts(op, av, ch: str) -> Optional[bool]:
+    """Does the single-character item (op, av) accept `ch`?  None when the item is not a single-character class."""
+    o = ord(ch)
+    if op is sre_c.LITERAL:
+        return o == av
+    if op is sre_c.NOT_LITERAL:
+        return o != av
+    if op is sre_c.ANY:
+        return ch != "\n"
+    if op is sre_c.IN:
+        neg, hit = False, False
+        for o2, a2 in av:
+            if o2 is sre_c.NEGATE:
+                neg = True
+            elif o2 is sre_c.LITERAL:
+                hit = hit or o == a2
+            elif o2 is sre_c.RANGE:
+                hit = hit or a2[0] <= o <= a2[1]
+            elif o2 is sre_c.CATEGORY:
+                name = str(a2)
+                if name.endswith("CATEGORY_DIGIT"):
+                    hit = hit or ch.isdigit()
+                elif name.endswith("CATEGORY_NOT_DIGIT"):
+                    hit = hit or not ch.isdigit()
+                elif name.endswith("CATEGORY_SPACE"):
+                    hit = hit or ch.isspace()
+                elif name.endswith("CATEGORY_NOT_SPACE"):
+                    hit = hit or not ch.isspace()
+                elif name.endswith("CATEGORY_WORD"):
+                    hit = hit or ch.isalnum() or ch == "_"
+                elif name.endswith("CATEGORY_NOT_WORD"):
+                    hit = hit or not (ch.isalnum() or ch == "_")
+                else:
+                    return None
+            else:
+                return None
+        return hit != neg
+    return None
+
+
+def repeated_class(sub) -> Optional[Tuple[int, Any, Any, Any]]:
+    """A group body of the form  <class>* / <class>+ / <class>*? ...: (min, max, op, av) of the repeated single-character item."""
+    if len(sub) != 1:
+        return None
+    op, av = sub[0]
+    if op not in (sre_c.MAX_REPEAT, sre_c.MIN_REPEAT):
+        return None
+    lo, hi, body = av
+    if len(body) != 1:
+        return None
+    bop, bav = body[0]
+    if class_accepts(bop, bav, "0") is None:
+        return None
+    return lo, hi, bop, bav
